@@ -62,9 +62,9 @@ def validate_traces(ctx, records, tag="runner", shards=8):
                             timeout=1500, xmx="2g")
         if r["violated"]:
             raise tlc.TLCFailure(f"Trace_Runner invariant {r['violated']} violated:\n{r['out'][-2500:]}")
-        acc = {int(x) for x in RE_ACC.findall(r["out"])}
+        acc = {int(x) for x in RE_ACC.findall(r["nout"])}
         rej = {}
-        for tid, idx, name in RE_REJ.findall(r["out"]):
+        for tid, idx, name in RE_REJ.findall(r["nout"]):
             tid, idx = int(tid), int(idx)
             if tid not in rej or idx > rej[tid][0]:
                 rej[tid] = (idx, name)
